@@ -168,8 +168,10 @@ theorem setup_starts_fresh (stack : List Bytes) (script : Bytes) (flags : Nat) (
     · cases hinit
       split at h
       · cases h
-      · cases h
-        exact ⟨⟨by simp, fun _ => by simp [atStart]⟩, by simp [atStart]⟩
+      · split at h
+        · cases h
+        · cases h
+          exact ⟨⟨by simp, fun _ => by simp [atStart]⟩, by simp [atStart]⟩
 
 def exCx : Ctx :=
   { sha256 := id, ripemd160 := id, sha1 := id, checkLowS := fun _ => true, checkLockTime := fun _ => false,
